@@ -124,7 +124,7 @@ def runOp (fl : Flags) (s : St) (toks : List String) : St × String :=
   match toks with
   | ["dump"] => runDump fl s
   | ["rebuild"] =>
-    -- the conclusion of `views_fresh_decode_partial` (hence its hypotheses' consequence), evaluated: every view of the live state, rendered by
+    -- `views_fresh_decode`, evaluated (a run-time cross-check of the theorem): every view of the live state, rendered by
     -- position, against the same views of the state rebuilt from the forest the text encodes
     let live := (runDump fl s).2
     let fresh := (runDump fl (ofForest (toForest (abs s)))).2
@@ -178,6 +178,12 @@ def runOp (fl : Flags) (s : St) (toks : List String) : St × String :=
     | some p => stepShow (.setWifePointer (root f) p)
     | none => (s, "bad-op")
   | ["ac", f, i] => stepShow (.addChild (root f) (root i))
+  | ["aed", i, t, v] => match fromHex t, fromHex v with
+    | some t, some v => stepShow (.addEventDate (root i) t v)
+    | _, _ => (s, "bad-op")
+  | ["ssx", i, v] => match fromHex v with
+    | some v => stepShow (.setSex (root i) v)
+    | none => (s, "bad-op")
   | cmd :: rest =>
     match takePath rest with
     | none => (s, "bad-op")
